@@ -290,6 +290,22 @@ def name_mapped_models(r):
         y_: Optional[str]
         tags: List[str]
 
+    @dataclass
+    class Od:
+        ident: int
+        tags: Optional[List[str]] = field(default_factory=list)
+        scores: Optional[Dict[str, int]] = field(default_factory=dict)
+        note: Optional[str] = field(default_factory=str)
+        pair: Optional[Tuple[int, ...]] = field(default_factory=tuple)
+        blob: Union[bytes, None] = field(default_factory=bytes)
+        level: Optional[int] = 3
+        name: Optional[str] = "n"
+
+    def od():
+        # values that are falsy without being equal to the field's default must survive omit_default
+        return Od(r.randint(0, 9), r.choice([None, [], ["a"]]), r.choice([None, {}, {"k": 1}]), r.choice([None, "", "x"]),
+                  r.choice([None, (), (1, 2)]), r.choice([None, b"", b"z"]), r.choice([None, 0, 3, 5]), r.choice([None, "", "n", "m"]))
+
     def req():
         return Req(r.randint(0, 9), r.choice([None, "s"]), r.sample(["a", "b"], r.randint(0, 2)))
 
@@ -306,8 +322,31 @@ def name_mapped_models(r):
         ("omit_default+map", [name_mapping(Pt, omit_default=True, map={"label": ("m", "l"), "weight": ("m", "w")})]),
         ("skip_defaulted", [name_mapping(Pt, skip=["tags"])]),
         ("index_map", [name_mapping(Req, map={"x_coord": 2, "y_": 0, "tags": 1})]),
+        ("omit_default:factories", [name_mapping(Od, omit_default=True)]),
+        ("omit_default:factories+map", [name_mapping(Od, omit_default=True, map={"tags": ("m", "t"), "note": ("m", "n")})]),
+        ("omit_default:some", [name_mapping(Od, omit_default=["tags", "note", "level"])]),
     ]
-    return Pt, pt, Req, req, cfgs
+    return Pt, pt, Req, req, cfgs, Od, od
+
+
+def confusable_families():
+    @dataclass
+    class Both:
+        a: Literal[0, 1]
+        b: Literal[False, True]
+        c: Literal[1, "x"] = 1
+        d: Literal[True, "x"] = True
+
+    return [
+        [(Literal[0, 1], [0, 1]), (Literal[False, True], [False, True])],
+        [(Literal[1, "a"], [1, "a"]), (Literal[True, "a"], [True, "a"])],
+        [(Literal[0], [0]), (Literal[False], [False])],
+        [(List[Literal[0, 1]], [[0, 1, 1]]), (List[Literal[False, True]], [[True, False]])],
+        [(Dict[str, Literal[1, 2]], [{"k": 1, "j": 2}]), (Dict[str, Literal[True, 2]], [{"k": True, "j": 2}])],
+        [(Optional[Literal[0]], [0, None]), (Optional[Literal[False]], [False, None])],
+        [(Tuple[Literal[0, 1], int], [(1, 5)]), (Tuple[Literal[False, True], int], [(True, 5)])],
+        [(Both, [Both(0, True), Both(1, False, "x", "x"), Both(1, True, 1, True)])],
+    ]
 
 
 def lax_overlapping(tp, seen=None):
@@ -370,7 +409,7 @@ def run(rep, tier, seed):
         jobs.append((tp, gen, None))
     for tp, gen in generic_models(r) * (3 if tier == "quick" else 30):
         jobs.append((tp, gen, None))
-    Pt, pt, Req, req, cfgs = name_mapped_models(r)
+    Pt, pt, Req, req, cfgs, Od, od = name_mapped_models(r)
     total = fails = jsoned = 0
     samples = []
     kinds = {}
@@ -418,8 +457,8 @@ def run(rep, tier, seed):
     for cname, recipe in cfgs:
         for (sc, m) in retorts:
             retort = Retort(strict_coercion=sc, debug_trail=getattr(DebugTrail, m), recipe=recipe)
-            for _ in range(4):
-                cls, x = (Req, req()) if cname in ("as_list", "index_map") else (Pt, pt())
+            for _ in range(12 if cname.startswith("omit_default:") else 4):
+                cls, x = (Req, req()) if cname in ("as_list", "index_map") else (Od, od()) if cname.startswith("omit_default:") else (Pt, pt())
                 if cname == "skip_defaulted":
                     x.tags = []            # a skipped field can only come back as its default
                 problem = check(retort, cls, x, f"strict={sc},{m}", cname)
@@ -427,6 +466,20 @@ def run(rep, tier, seed):
                     fails += 1
                     rep.violation(f"roundtrip:name_mapping[{cname}]:{problem.split(' ')[0]}", "property-violated",
                                   {"what": problem, "name_mapping": cname, "value": repr(x), "strict_coercion": sc, "debug_trail": m})
+    # ---- types that are equal under == / hash without being the same type, served by ONE retort in both request orders
+    #      (whatever the retort caches must not let one type's loader or dumper answer for the other)
+    for fam in confusable_families():
+        for order in (fam, fam[::-1]):
+            for (sc, m) in retorts:
+                retort = Retort(strict_coercion=sc, debug_trail=getattr(DebugTrail, m))
+                for tp, values in order:
+                    for x in values:
+                        problem = check(retort, tp, x, f"strict={sc},{m}", "shared-retort")
+                        if problem:
+                            fails += 1
+                            rep.violation(f"roundtrip:shared-retort:{sig_type(tp)}:{problem.split(' ')[0]}", "property-violated",
+                                          {"what": problem, "type": str(tp), "value": repr(x), "strict_coercion": sc, "debug_trail": m,
+                                           "requested_before": [str(t) for t, _ in order[:[t for t, _ in order].index(tp)]]})
     # ---- the Coq fragment: dump then load inside the model equals the value, on generated (type, value) pairs
     nfrag = model_roundtrip(rep, r, 300 if tier == "quick" else 5000)
     rep.cov.update({
@@ -474,6 +527,7 @@ def model_roundtrip(rep, r, n):
 
 
 def replay(rep, body):
-    print("replay: re-run the check with the recorded seed; failing case was:", body.get("what"))
+    import sys
+    print("replay: re-running the check with the recorded tier and seed; failing case was:", body.get("what"))
     print(" type:", body.get("type") or body.get("name_mapping"), " value:", body.get("value"))
-    rep.violation(body["signature"], body["kind"], body, no_input=body.get("no_failing_input_found", False))
+    lib.replay_by_rerun(sys.modules[__name__], rep, body)
